@@ -74,24 +74,50 @@ def make_basis(mesh, v, elemname, order):
     reg = v['region']
     e = elem_of(elemname)
     kw = {} if order is None else {'intorder': int(order)}
+    dt = getattr(np, reg.get('dtype', 'int64'))
     if reg['dom'] == 'cells':
         mode = reg['mode']
         if mode == 'all':
             return Basis(mesh, e, **kw), list(range(mesh.t.shape[1]))
         cells = [int(c) for c in reg['cells']]
         if mode == 'array':
-            return Basis(mesh, e, elements=np.array(cells, dtype=np.int64), **kw), cells
-        m2 = mesh.with_subdomains({'r': np.array(cells, dtype=np.int64)})
-        return Basis(m2, e, elements='r', **kw), cells
+            return Basis(mesh, e, elements=np.array(cells, dtype=dt), **kw), cells
+        if mode == 'tag':
+            m2 = mesh.with_subdomains({'r': np.array(cells, dtype=dt)})
+            return Basis(m2, e, elements='r', **kw), cells
+        # mode 'multi': a list / tuple / set of selectors (tags, index arrays, single indices) that may overlap;
+        # the region is their union (reg['cells'], sorted)
+        tags = {f'r{j}': np.array(pt['ix'], dtype=dt) for j, pt in enumerate(reg['parts']) if pt['as'] == 'tag'}
+        m2 = mesh.with_subdomains(tags) if tags else mesh
+        sel = []
+        for j, pt in enumerate(reg['parts']):
+            sel.append(f'r{j}' if pt['as'] == 'tag' else (int(pt['ix'][0]) if pt['as'] == 'int'
+                                                            else np.array(pt['ix'], dtype=dt)))
+        sel = {'list': list, 'tuple': tuple, 'set': set}[reg['container']](sel)
+        return Basis(m2, e, elements=sel, **kw), cells
     mode = reg['mode']
     if mode == 'boundary':
         b = FacetBasis(mesh, e, **kw)
         return b, None
     find = facet_ids(mesh, reg['fverts'])
     if mode == 'array':
-        return FacetBasis(mesh, e, facets=np.array(find, dtype=np.int64), **kw), find
-    m2 = mesh.with_boundaries({'b': np.array(find, dtype=np.int64)})
-    return FacetBasis(m2, e, facets='b', **kw), find
+        return FacetBasis(mesh, e, facets=np.array(find, dtype=dt), **kw), find
+    if mode == 'tag':
+        m2 = mesh.with_boundaries({'b': np.array(find, dtype=dt)})
+        return FacetBasis(m2, e, facets='b', **kw), find
+    tags, sel = {}, []
+    for j, pt in enumerate(reg['parts']):
+        ids_ = np.array(facet_ids(mesh, pt['fverts']), dtype=dt)
+        if pt['as'] == 'tag':
+            tags[f'b{j}'] = ids_
+            sel.append(f'b{j}')
+        elif pt['as'] == 'int':
+            sel.append(int(ids_[0]))
+        else:
+            sel.append(ids_)
+    m2 = mesh.with_boundaries(tags) if tags else mesh
+    sel = {'list': list, 'tuple': tuple, 'set': set}[reg['container']](sel)
+    return FacetBasis(m2, e, facets=sel, **kw), find
 
 
 def geometry(mesh, kind, basis, req, dom):
@@ -109,16 +135,17 @@ def geometry(mesh, kind, basis, req, dom):
         table = mesh.facets
         if req is None:
             req = got
-    if sorted(got) != sorted(req):
-        raise RegionMismatch()
+    # the oracle integrates over the REQUESTED entities (with the multiplicity in which they were listed); the basis'
+    # own index array is only used to line up the per-entity values, when it lists the same entities
     ents = ids(table[:, req])
-    pos = {g: j for j, g in enumerate(got)}
-    order = [pos[r] for r in req] if len(set(got)) == len(got) else None
+    order = None
+    if sorted(got) == sorted(req):
+        if got == req:
+            order = list(range(len(req)))
+        elif len(set(got)) == len(got):
+            pos = {g: j for j, g in enumerate(got)}
+            order = [pos[r] for r in req]
     return p, int(sc), ents, order
-
-
-class RegionMismatch(Exception):
-    pass
 
 
 def monomial_functional(alpha):
